@@ -4,6 +4,8 @@
 import HierArc.Model.Gate
 import HierArc.Proofs.RealInst
 import HierArc.Proofs.LensKeys
+import HierArc.Proofs.LensIndex
+import HierArc.Props.C07
 import Mathlib.Tactic.Linarith
 import Mathlib.Tactic.Ring
 import Mathlib.Tactic.FieldSimp
@@ -374,6 +376,29 @@ example : Lens.realisedKeys
       aniso := { sampling := true, model := "OM" }, los := {} } {} =
     ["lambda_mst", "gamma_ppn", "gamma_in", "a_ani"] := by
   simp [Lens.realisedKeys, Lens.lensKeys, Lens.anisoKeys]
+
+/-- **no IndexError from the per-lens slopes, for every lens list**: whatever the order of the lenses and whichever of them
+    carry a scaling list without the slope, the index that `LensSampleLikelihood.__init__` hands to lens `j`
+    (`Sample.assign`) addresses the slope list that `ParamManager` builds (length `gamma_pl_num`), so `draw_lens` never
+    raises IndexError — at any recursion depth of the re-draws, for every stream -/
+theorem slope_index_no_error (mk : ℝ → ℝ → ℝ → ℝ) (ls : List Sample.LensSpec) (j : ℕ) (idx : Option ℕ)
+    (hidx : (Sample.assign false ls 0)[j]? = some idx) (cfg : Lens.LensDist ℝ) (hcfg : cfg.gammaPlIndex = idx)
+    (kw : Dict ℝ) (l : List ℝ) (hl : l.length = Sample.gammaPlNum false ls) (fuel : ℕ) (s : Lens.St ℝ) :
+    Lens.drawLens mk cfg kw (some l) fuel s ≠ .error "IndexError" := by
+  intro h
+  obtain ⟨i, l', hi, hl', hlen⟩ := Lens.drawLens_ie mk cfg kw (some l) fuel s _ h rfl
+  cases hl'
+  rw [hcfg] at hi
+  subst hi
+  have := (C07.assign_index_lt ls 0 j i hidx).2
+  omega
+
+/-- … and the converse: a running index that advanced for the wrong lenses (an index ≥ the length of the list) raises at
+    the first evaluation, it is never silently defaulted -/
+theorem slope_index_outside_raises (mk : ℝ → ℝ → ℝ → ℝ) (cfg : Lens.LensDist ℝ) (kw : Dict ℝ) (i : ℕ) (l : List ℝ)
+    (hi : cfg.gammaPlIndex = some i) (hl : l.length ≤ i) (s : Lens.St ℝ) :
+    Lens.gammaPlStep mk cfg kw (some l) s = .error "IndexError" :=
+  Lens.gammaPlStep_outside_raises mk cfg kw i l hi hl s
 
 /-! ### non-vacuity -/
 example : guardOK (0.3 : ℝ) (-0.2) [1.5, 2.0] 2.3 = true := by
